@@ -165,6 +165,9 @@ EXPR_FORMS = [
     ("negative-unary", lambda v, w: f"-{256 ** w - v}" if w < 3 and v > 0 else None),
     ("constant", None),
     ("macro-twice", "macro"),
+    ("after-rep", "prefix:rep #0x30\nlda.w #0x0010\nldx.w #0x0010\nrts\n:c230a91000a2100060"),
+    ("after-sep", "prefix:sep #0x30\nlda.b #0x10\nrts\n:e230a91060"),
+    ("after-rep-a", "prefix:rep #0x20\n:c220"),
 ]
 EXPR_VALUES = {1: [0x12, 0xFE], 2: [0x1234, 0x0100], 3: [0x123456, 0x010000]}
 
@@ -200,6 +203,22 @@ def run_expr(mn, tier):
                         outcomes.add("expr-MACRO-TWICE-WRONG")
                     else:
                         outcomes.add("expr-macro-twice-ok")
+                    continue
+                if isinstance(form, str) and form.startswith("prefix:"):
+                    # the same instruction after other instructions: encoding must not depend on what precedes it
+                    _, ptxt, phex = form.split(":")
+                    text = hexlit(value, False)
+                    src = f"{ptxt}{mn} {isa.render_operand(shape, text)}\n"
+                    out = impl.assemble(src)
+                    n += 1
+                    nt += 1
+                    exp = bytes.fromhex(phex) + isa.encode(isa.lookup(mn, shape, width), value, width)
+                    if not out.accepted or out.blocks != [(0, exp)]:
+                        viol.append({"key": f"isa:wrong-bytes:{mn} {sid} w{width} form={fname}",
+                                     "msg": f"`{src.replace(chr(10), ' / ')}` must encode as {exp.hex()} but gave {out.brief()}"})
+                        outcomes.add("expr-AFTER-PREFIX-WRONG")
+                    else:
+                        outcomes.add("expr-after-prefix-ok")
                     continue
                 if form is None:
                     text = "kk"
